@@ -201,7 +201,7 @@ def extra(ctx):
 
 SPEC = semprop.Spec(
     prop="C08", programs=programs, oracles=("diff",), extra=extra, mask=semprop.ALL & ~(1 << 19), fresh_counter=True,
-    theorems=["C08_refuted_temporary_clobbered", "C08_depends_on_counter", "C08_refuted", "C08_refuted_early_return", "C08_positive_examples", "C08_arguments_converted_to_parameter_types", "C08_arguments_nonvacuous"],
+    theorems=["C08_refuted_temporary_clobbered", "C08_depends_on_counter", "C08_refuted", "C08_refuted_early_return", "C08_positive_examples", "C08_arguments_converted_to_parameter_types", "C08_arguments_nonvacuous", "C08_return_value_read_at_declared_type"],
     note="arguments of all 8 types into the bundled routines, results into 32/64-bit targets, 1-4 calls per expression, nested calls, calls next to live "
          "temporaries; sub-routines registered through add_sub_routine at random points of a history and called from two Compiler instances",
 )
